@@ -256,3 +256,712 @@ for _impl in ("ref", "opt"):
         obligation("C08", "fq_range_%s_%s" % (_impl, _curve),
                    bound="a, b in [0,p), int operand ANY integer; QF_UFLIA with products as atoms; real 254/381-bit prime")(
             _mk_fq(_impl, _curve, "range"))
+
+
+# ---------------------------------------------------------------------------
+# C08.c  FQP ring operations (coefficient level, ring mode) vs a textbook model
+
+def cf(x):
+    """coefficients of an FQP element as Res / ints (reference wraps them in FQ objects)."""
+    return [c.n if hasattr(c, "n") else c for c in x.coeffs]
+
+
+def spec_mul(a, b, mc):
+    d = len(a)
+    c = [0] * (2 * d - 1)
+    for i in range(d):
+        for j in range(d):
+            c[i + j] = c[i + j] + a[i] * b[j]
+    for k in range(2 * d - 2, d - 1, -1):
+        top = c[k]
+        for i in range(d):
+            c[k - d + i] = c[k - d + i] - top * mc[i]
+    return c[:d]
+
+
+def _atoms(R, prefix, d):
+    return [R.atom("%s%d" % (prefix, i)) for i in range(d)]
+
+
+def _eq_coeffs(rep, R, got, exp, what, rp, path=None):
+    ok = True
+    for i, (g, e) in enumerate(zip(got, exp)):
+        ok &= require(rep, R.prove_equal(R.lift(g), R.lift(e)), "%s [coefficient %d]" % (what, i), path, rp)
+    if len(got) != len(exp):
+        rep.fail(what + ": wrong number of coefficients", rp)
+        ok = False
+    return ok
+
+
+def _check_fqp_ring(rep, impl, curve, deg, K, M):
+    p = K.field_modulus
+    mc = list(K.FQ2_MODULUS_COEFFS if deg == 2 else K.FQ12_MODULUS_COEFFS)
+    rp = {"kind": "c08_fqp", "args": {"impl": impl, "curve": curve, "deg": deg}}
+    rep.encoded(K.__mul__, K.__add__, K.__sub__, K.__neg__, K.__init__, K.__eq__, K.__rmul__, K.__truediv__, K.__div__)
+    tag = "%s FQ%d %s" % (impl, deg, curve)
+
+    def fn(R):
+        a, b, c = _atoms(R, "a", deg), _atoms(R, "b", deg), _atoms(R, "c", deg)
+        k = R.atom("k")
+        x, y, z = K(a), K(b), K(c)
+        out = {"a": a, "b": b, "c": c, "k": k}
+        out["mul"] = cf(x * y)
+        out["add"] = cf(x + y)
+        out["sub"] = cf(x - y)
+        out["neg"] = cf(-x)
+        out["smul"] = cf(x * k)
+        out["rsmul"] = cf(k * x)
+        out["assoc_l"], out["assoc_r"] = cf((x * y) * z), cf(x * (y * z))
+        out["comm"] = cf(y * x)
+        out["distr_l"], out["distr_r"] = cf(x * (y + z)), cf(x * y + x * z)
+        out["one"] = cf(x * K.one())
+        out["zero"] = cf(x + K.zero())
+        out["inv_add"] = cf(x + (-x))
+        out["types"] = [type(x * y), type(x + y), type(x - y), type(-x), type(x * k), type(K.one())]
+        return out
+
+    for pth, R in ring.run_paths(fn, lambda: Ring(p)):
+        rep.paths += 1
+        path = lits_summary(R)
+        if pth.kind != "ret":
+            rep.fail(tag + " ring operation raised %r" % (pth.value,), rp, detail=str(path))
+            continue
+        o = pth.value
+        a, b, c, k = o["a"], o["b"], o["c"], o["k"]
+        _eq_coeffs(rep, R, o["mul"], spec_mul(a, b, mc), tag + " x*y = schoolbook product reduced by the modulus polynomial", rp, path)
+        _eq_coeffs(rep, R, o["add"], [u + v for u, v in zip(a, b)], tag + " x+y", rp, path)
+        _eq_coeffs(rep, R, o["sub"], [u - v for u, v in zip(a, b)], tag + " x-y", rp, path)
+        _eq_coeffs(rep, R, o["neg"], [-u for u in a], tag + " -x", rp, path)
+        _eq_coeffs(rep, R, o["smul"], [u * k for u in a], tag + " x*int (any integer)", rp, path)
+        _eq_coeffs(rep, R, o["rsmul"], [u * k for u in a], tag + " int*x", rp, path)
+        _eq_coeffs(rep, R, o["assoc_l"], o["assoc_r"], tag + " (x*y)*z = x*(y*z)", rp, path)
+        _eq_coeffs(rep, R, o["comm"], o["mul"], tag + " y*x = x*y", rp, path)
+        _eq_coeffs(rep, R, o["distr_l"], o["distr_r"], tag + " x*(y+z) = x*y + x*z", rp, path)
+        _eq_coeffs(rep, R, o["one"], a, tag + " x*one = x", rp, path)
+        _eq_coeffs(rep, R, o["zero"], a, tag + " x+zero = x", rp, path)
+        _eq_coeffs(rep, R, o["inv_add"], [0] * deg, tag + " x+(-x) = 0", rp, path)
+        require(rep, all(t is K for t in o["types"]), tag + ": results have the operand's class", path, rp)
+    # negative control: a wrong modulus coefficient is refuted
+    with core.Ctx() as ctx:
+        R = Ring(p)
+        ctx.ring = R
+        a, b = _atoms(R, "a", deg), _atoms(R, "b", deg)
+        wrong = list(mc)
+        wrong[0] = wrong[0] + 1
+        got = cf(K(a) * K(b))
+        control(rep, R.prove_equal(R.lift(got[0]), R.lift(spec_mul(a, b, wrong)[0])), tag + " product with modulus coefficient + 1")
+
+    # equality: True exactly when every coefficient agrees
+    def fn_eq(R):
+        a, b = _atoms(R, "a", deg), _atoms(R, "b", deg)
+        return a, b, K(a) == K(b), K(a) != K(b)
+    n_true = 0
+    for pth, R in ring.run_paths(fn_eq, lambda: Ring(p)):
+        rep.paths += 1
+        path = lits_summary(R)
+        if pth.kind != "ret":
+            rep.fail(tag + " == raised %r" % (pth.value,), rp)
+            continue
+        a, b, e, ne = pth.value
+        diffs = [R.prove_equal(u, v) for u, v in zip(a, b)]   # under the path's substitutions
+        all_zero = all(d == "zero" for d in diffs)
+        n_true += 1 if e else 0
+        # path literals: a False answer needs one coefficient decided different; True needs all decided equal
+        dec_nonzero = any((not l[1]) for l in R.lits)
+        dec_zero = sum(1 for l in R.lits if l[1])
+        require(rep, (e is True and dec_zero == deg and not dec_nonzero) or (e is False and dec_nonzero),
+                tag + " == is coefficient-wise equality", path, rp)
+        require(rep, ne == (not e), tag + " != negates ==", path, rp)
+    require(rep, n_true == 1, tag + " ==: exactly one path answers True", None, rp)
+
+
+def _mk_fqp_ring(impl, curve, deg):
+    def f(rep, tier):
+        for i, c, K, M in fqp_classes(deg):
+            if i == impl and c == curve:
+                _check_fqp_ring(rep, i, c, deg, K, M)
+    return f
+
+
+for _impl in ("ref", "opt"):
+    for _curve in CURVES:
+        for _deg in (2, 12):
+            obligation("C08", "fqp_ring_%s_%s_fq%d" % (_impl, _curve, _deg),
+                       bound="all coefficient tuples (residues mod the real prime), int scalars any integer; identities in Z/p[a_i,b_i,c_i,k]")(
+                _mk_fqp_ring(_impl, _curve, _deg))
+
+
+@obligation("C08", "fqp_ring_symbolic_modulus", bound="ad-hoc FQP subclasses of degree 2, 3, 4 with SYMBOLIC modulus coefficients (any monic modulus), bn128 prime")
+def fqp_symbolic_modulus(rep, tier):
+    f = mod(FIELDS)
+    p = f.bn128_FQ.field_modulus
+    rp = {"kind": "c08_fqp_adhoc", "args": {}}
+    refM, optM = mod("py_ecc.fields.field_elements"), mod("py_ecc.fields.optimized_field_elements")
+    rep.encoded(refM.FQP.__mul__, optM.FQP.__mul__, refM.FQP.__init__, optM.FQP.__init__)
+    for d in (2, 3, 4):
+        def fn(R, d=d):
+            mc = _atoms(R, "m", d)
+
+            class RefT(refM.FQP):
+                field_modulus = p
+                degree = d
+
+                def __init__(self, coeffs, modulus_coeffs=None):
+                    refM.FQP.__init__(self, coeffs, mc)
+
+            class OptT(optM.FQP):
+                field_modulus = p
+                degree = d
+                mc_tuples = list(enumerate(mc))
+
+                def __init__(self, coeffs, modulus_coeffs=None):
+                    optM.FQP.__init__(self, coeffs, mc)
+            a, b, c = _atoms(R, "a", d), _atoms(R, "b", d), _atoms(R, "c", d)
+            out = {"mc": mc, "a": a, "b": b}
+            for nm, T in (("ref", RefT), ("opt", OptT)):
+                x, y, z = T(a), T(b), T(c)
+                out[nm] = dict(mul=cf(x * y), al=cf((x * y) * z), ar=cf(x * (y * z)), dl=cf(x * (y + z)), dr=cf(x * y + x * z),
+                               one=cf(x * T.one()))
+            return out
+        for pth, R in ring.run_paths(fn, lambda: Ring(p, policy=lambda live: "generic")):
+            rep.paths += 1
+            path = lits_summary(R)
+            if pth.kind != "ret":
+                rep.fail("symbolic-modulus FQP of degree %d raised %r" % (d, pth.value), rp, detail=str(path))
+                continue
+            o = pth.value
+            sp = spec_mul(o["a"], o["b"], o["mc"])
+            for nm in ("ref", "opt"):
+                t = "%s FQP degree %d, symbolic modulus" % (nm, d)
+                _eq_coeffs(rep, R, o[nm]["mul"], sp, t + ": product = textbook", rp, path)
+                _eq_coeffs(rep, R, o[nm]["al"], o[nm]["ar"], t + ": associativity", rp, path)
+                _eq_coeffs(rep, R, o[nm]["dl"], o[nm]["dr"], t + ": distributivity", rp, path)
+                _eq_coeffs(rep, R, o[nm]["one"], o["a"], t + ": one is neutral", rp, path)
+
+
+@obligation("C08", "fqp_range", bound="FQ2 and FQ12 of both curves, ref and opt: coefficients in [0,p) after + - * neg, int scalar any integer; QF_UFLIA, products as atoms")
+def fqp_range(rep, tier):
+    rp0 = lambda impl, curve, deg: {"kind": "c08_fqp", "args": {"impl": impl, "curve": curve, "deg": deg}}
+    for deg in (2, 12):
+        for impl, curve, K, M in fqp_classes(deg):
+            p = K.field_modulus
+            tag = "%s FQ%d %s" % (impl, deg, curve)
+
+            def run(ctx, K=K, deg=deg, p=p):
+                a = [SymZ.var("a%d" % i, 0, p - 1) for i in range(deg)]
+                b = [SymZ.var("b%d" % i, 0, p - 1) for i in range(deg)]
+                k = SymZ.var("k")
+                x, y = K(a), K(b)
+                return [x * y, x + y, x - y, -x, x * k, K([k] + [0] * (deg - 1))]
+
+            def on_path(pth, tag=tag, rp=rp0(impl, curve, deg), p=p):
+                rep.paths += 1
+                if pth.kind != "ret":
+                    rep.fail(tag + " raised %r" % (pth.value,), rp)
+                    return
+                for nm, r in zip(("mul", "add", "sub", "neg", "int-mul", "init(any int)"), pth.value):
+                    g = z3.And(*[z3.And(SymZ.lift(c).t >= 0, SymZ.lift(c).t < p) for c in cf(r)])
+                    v, m = pth.ctx.prove(g)
+                    require(rep, v, tag + " %s: every coefficient in [0, p)" % nm, pth.decisions, rp)
+            core.explore(run, ctx_kwargs=dict(mul="uf"), on_path=on_path)
+
+
+# ---------------------------------------------------------------------------
+# C08.e  exponentiation: x ** n is the n-fold product for every n >= 0
+
+class _Carrier:
+    def __init__(self, c):
+        self.c = c
+
+
+class ExpElt:
+    """x^c for an abstract element x of a commutative monoid; c is an exact (symbolic) integer.
+    `*` adds exponents; `**` is the CONTRACT of the recursive call (inductive hypothesis):
+    for 0 <= k it returns base^k; the call is recorded so that the harness can check that
+    the exponent decreased (well-founded induction) and count the nesting."""
+    degree = 12
+    calls = None
+
+    def __init__(self, v):
+        if isinstance(v, _Carrier):
+            self.c = v.c
+        elif isinstance(v, (list, tuple)) and list(v) == [1] + [0] * (len(v) - 1):
+            self.c = SymZ.const(0)
+        elif isinstance(v, int) and v == 1:
+            self.c = SymZ.const(0)
+        else:
+            raise core.Unsupported("ExpElt constructed from %r" % (v,))
+
+    @property
+    def n(self):
+        return _Carrier(self.c)
+
+    @property
+    def coeffs(self):
+        return _Carrier(self.c)
+
+    def __mul__(self, o):
+        if not isinstance(o, ExpElt):
+            raise core.Unsupported("ExpElt * %r" % (type(o),))
+        return ExpElt(_Carrier(self.c + o.c))
+
+    __rmul__ = __mul__
+
+    def __pow__(self, k):
+        ExpElt.calls.append((self.c, k))
+        return ExpElt(_Carrier(self.c * k))
+
+
+def _pow_targets():
+    f = mod(FIELDS)
+    refM, optM = mod("py_ecc.fields.field_elements"), mod("py_ecc.fields.optimized_field_elements")
+    return [("ref FQ", refM.FQ.__pow__, "ref", "FQ"), ("opt FQ", optM.FQ.__pow__, "opt", "FQ"),
+            ("ref FQP", refM.FQP.__pow__, "ref", "FQ12"), ("opt FQP", optM.FQP.__pow__, "opt", "FQ12")]
+
+
+def _has_while(fn):
+    import ast, inspect, textwrap
+    t = ast.parse(textwrap.dedent(inspect.getsource(fn)))
+    return any(isinstance(n, ast.While) for n in ast.walk(t))
+
+
+@obligation("C08", "pow_all_exponents", bound="every integer exponent n >= 0 (unbounded): inductive step for recursive forms, loop-cut invariant step for iterative forms; additionally all n < 2^6 unrolled")
+def pow_all_exponents(rep, tier):
+    """x ** n equals the n-fold product, for FQ.__pow__ (ref, opt) and FQP.__pow__ (ref, opt)."""
+    for tag, fn, impl, kind in _pow_targets():
+        rep.encoded(fn)
+        rp = {"kind": "c08_pow", "args": {"impl": impl, "kind": kind}}
+        if not _has_while(fn):
+            # ---- recursive form: one level with the recursive call replaced by its contract
+            def run(ctx, fn=fn):
+                ExpElt.calls = []
+                n = SymZ.var("n", 0, None)
+                x = ExpElt(_Carrier(SymZ.const(1)))
+                r = fn(x, n)
+                return n, r, list(ExpElt.calls)
+
+            def on_path(pth, tag=tag, rp=rp):
+                rep.paths += 1
+                if pth.kind != "ret":
+                    rep.fail("%s.__pow__ raised %r for some n >= 0" % (tag, pth.value), dict(rp, args=dict(rp["args"], model=_model_n(pth))))
+                    return
+                n, r, calls = pth.value
+                v, m = pth.ctx.prove(r.c.t == n.t)
+                require(rep, v, "%s: x**n == x^n given the contract for smaller exponents" % tag, pth.decisions,
+                        dict(rp, args=dict(rp["args"], model=_model_n(pth, m))))
+                for (c, k) in calls:
+                    k = SymZ.lift(k)
+                    v, m = pth.ctx.prove(z3.And(k.t >= 0, k.t < n.t))
+                    require(rep, v, "%s: recursive exponent is in [0, n) (well-founded)" % tag, pth.decisions,
+                            dict(rp, args=dict(rp["args"], model=_model_n(pth, m))))
+                rep.note("%s path %s: %d nested ** call(s)" % (tag, pth.decisions, len(calls)))
+            core.explore(run, on_path=on_path)
+            rep.stub("recursive ** inside __pow__ -> contract base^k (inductive hypothesis, k < n proven)")
+        else:
+            # ---- iterative form: unrolled for n < 2^K, plus the loop-cut inductive step
+            K = 6 if tier == "quick" else 9
+
+            def run(ctx, fn=fn, K=K):
+                ExpElt.calls = []
+                n = SymZ.var("n", 0, (1 << K) - 1)
+                x = ExpElt(_Carrier(SymZ.const(1)))
+                r = fn(x, n)
+                return n, r, list(ExpElt.calls)
+
+            def on_path(pth, tag=tag, rp=rp):
+                rep.paths += 1
+                if pth.kind != "ret":
+                    rep.fail("%s.__pow__ raised %r for some n < 2^K" % (tag, pth.value), dict(rp, args=dict(rp["args"], model=_model_n(pth))))
+                    return
+                n, r, calls = pth.value
+                v, m = pth.ctx.prove(r.c.t == n.t)
+                require(rep, v, "%s: x**n == x^n (unrolled, n < 2^%d)" % (tag, K), pth.decisions,
+                        dict(rp, args=dict(rp["args"], model=_model_n(pth, m))))
+            core.explore(run, on_path=on_path, ctx_kwargs=dict(max_decisions=64))
+            rep.bound("%s: loop unrolled for all n < 2^%d (every n is its own path)" % (tag, K))
+            _pow_loop_step(rep, tag, fn, rp)
+
+
+def _model_n(pth, m=None):
+    try:
+        if m is None:
+            r, m = pth.ctx.satisfiable()
+        v = m.eval(z3.Int("n"), model_completion=True)
+        return {"n": v.as_long()}
+    except Exception:
+        return {}
+
+
+def _pow_loop_step(rep, tag, fn, rp):
+    """loop invariant  o = x^a, t = x^b, a + b*e = n  is established by the prologue, preserved by
+    one arbitrary iteration (symbolic a, b, e), decreases e, and gives the result on exit."""
+    try:
+        cut = loopcut.cut(fn, rewriter=lambda m: world._Rewriter().visit(m))
+    except loopcut.LoopCutError as e:
+        rep.unknown("%s: loop cut does not apply (%s); only the unrolled bound stands" % (tag, e))
+        return
+
+    def run(ctx):
+        ExpElt.calls = []
+        n = SymZ.var("n", 0, None)
+        x = ExpElt(_Carrier(SymZ.const(1)))
+        kind, st = cut["init"](x, n)
+        if kind != "state":
+            raise core.Unsupported("prologue returned")
+        return n, st
+    # (1) prologue establishes the invariant; find which variables hold o, t, e
+    found = {}
+
+    def on_init(pth):
+        rep.paths += 1
+        if pth.kind != "ret":
+            rep.unknown("%s: prologue not executable symbolically: %r" % (tag, pth.value))
+            return
+        n, st = pth.value
+        elts = [k for k, v in st.items() if isinstance(v, ExpElt) and k != cut["params"][0]]
+        ints = [k for k, v in st.items() if isinstance(v, (SymZ, int)) and not isinstance(v, bool)]
+        found["elts"], found["ints"], found["self"] = elts, ints, cut["params"][0]
+        found["init"] = st
+        found["n"] = n
+    core.explore(run, on_path=on_init)
+    if "elts" not in found or len(found["elts"]) != 2 or len(found["ints"]) != 1:
+        rep.unknown("%s: loop state is not (accumulator, running power, exponent): %s" % (tag, found.get("elts")))
+        return
+    evar = found["ints"][0]
+
+    suspects = []
+    # try both role assignments for (acc, pw)
+    for acc, pw in (found["elts"], found["elts"][::-1]):
+        ok = [True]
+
+        def run_step(ctx, acc=acc, pw=pw):
+            n = SymZ.var("n", 0, None)
+            a = SymZ.var("a", 0, None)
+            b = SymZ.var("b", 0, None)
+            h = SymZ.var("h", 0, None)
+            bit = SymZ.var("bit", 0, 1)
+            e = 2 * h + bit
+            ctx.assume(a + b * e == n)           # invariant (b*e is the only product: NIA, tiny)
+            st = {cut["params"][0]: ExpElt(_Carrier(SymZ.const(1))), acc: ExpElt(_Carrier(a)), pw: ExpElt(_Carrier(b)), evar: e}
+            c = cut["cond"](**st)
+            if not c:
+                # exit: result of the epilogue is x^n
+                r = cut["tail"](**st)
+                return ("exit", n, r, None)
+            kind, st2 = cut["body"](**st)
+            if kind != "state":
+                raise core.Unsupported("loop body returned")
+            return ("step", n, st2, e)
+
+        def on_step(pth, acc=acc, pw=pw):
+            rep.paths += 1
+            if pth.kind != "ret":
+                ok[0] = False
+                return
+            what, n, st2, e = pth.value
+            if what == "exit":
+                r = st2
+                if not isinstance(r, ExpElt):
+                    ok[0] = False
+                    return
+                v, m = pth.ctx.prove(r.c.t == n.t, timeout_ms=20000)
+                ok[0] &= (v == "unsat")
+                return
+            a2, b2, e2 = st2[acc].c, st2[pw].c, SymZ.lift(st2[evar])
+            v, m = pth.ctx.prove(z3.And(a2.t + b2.t * e2.t == n.t, e2.t >= 0, e2.t < e.t), timeout_ms=20000)
+            ok[0] &= (v == "unsat")
+            if v == "sat":
+                try:
+                    suspects.append(m.eval(e.t, model_completion=True).as_long())
+                except Exception:
+                    pass
+        try:
+            core.explore(run_step, on_path=on_step)
+        except (core.Unsupported, core.PathLimit):
+            ok[0] = False
+        if ok[0]:
+            # initial state satisfies the invariant with these roles
+            st = found["init"]
+            n = found["n"]
+            with core.Ctx() as c2:
+                c2.assume(n.t >= 0)
+                v, m = c2.prove(z3.And(st[acc].c.t + st[pw].c.t * SymZ.lift(st[evar]).t == n.t, SymZ.lift(st[evar]).t >= 0))
+            if v == "unsat":
+                rep.ok("%s: loop invariant acc*pw^e = x^n established, preserved by an arbitrary iteration, e decreases, exit gives x^n (all n >= 0)" % tag)
+                return
+    if suspects:
+        # the step fails from a state with exponent e: any run starts in that state with n = e
+        rep.fail("%s: one loop iteration breaks the invariant acc*pw^e = x^n (solver state e = %s)" % (tag, suspects[:3]),
+                 dict(rp, args=dict(rp["args"], extra_n=[str(x) for x in suspects[:6]])))
+        return
+    rep.unknown("%s: loop-cut inductive step not discharged" % tag)
+
+
+@obligation("C08", "pow_resource_depth", bound="exponents up to p^12 (the property's quantifier): nesting depth of recursive __pow__ forms vs the interpreter's limit, measured on the running CPython")
+def pow_resource_depth(rep, tier):
+    """'x ** n ... for every integer n >= 0 however large': a recursive __pow__ nests one operator
+    dispatch per exponent bit (proved by the inductive step: exactly one nested call, with exponent
+    n div 2); the interpreter bounds that nesting.  The solver is asked for an exponent within
+    0..p^12 whose nesting exceeds the measured limit."""
+    import subprocess, json as _json
+    from symx import harness as H
+    for tag, fn, impl, kind in _pow_targets():
+        rep.encoded(fn)
+        rp = {"kind": "c08_pow", "args": {"impl": impl, "kind": kind}}
+        if _has_while(fn):
+            rep.ok("%s.__pow__ is iterative: no nesting, no depth bound" % tag, nontrivial=False)
+            continue
+        # structure: for n >= 2 exactly one nested call with k == n div 2
+        nested = []
+
+        def run(ctx, fn=fn):
+            ExpElt.calls = []
+            n = SymZ.var("n", 2, None)
+            x = ExpElt(_Carrier(SymZ.const(1)))
+            fn(x, n)
+            return n, list(ExpElt.calls)
+
+        def on_path(pth, tag=tag):
+            rep.paths += 1
+            if pth.kind != "ret":
+                return
+            n, calls = pth.value
+            nested.append(len(calls))
+            for c, k in calls:
+                v, m = pth.ctx.prove(SymZ.lift(k).t == n.t / 2)
+                require(rep, v, "%s: nested exponent is n div 2 (depth(n) = 1 + depth(n div 2))" % tag, pth.decisions, rp)
+        core.explore(run, on_path=on_path)
+        if not nested or max(nested) == 0:
+            rep.ok("%s.__pow__ makes no nested ** call" % tag, nontrivial=False)
+            continue
+        # measured limit of the interpreter for this class (real, unshimmed code)
+        code = (
+            "import sys\n"
+            "sys.path.insert(0, %r)\n"
+            "from checks.replays import _fq_class\n"
+            "K = _fq_class(%r, 'bls12_381', %r)\n"
+            "x = K(3) if %r == 'FQ' else K([3, 1] + [0] * (K.degree - 2))\n"
+            "lo, hi = 1, 6000\n"
+            "def ok(b):\n"
+            "    try:\n"
+            "        x ** ((1 << b) + 1); return True\n"
+            "    except RecursionError:\n"
+            "        return False\n"
+            "if ok(hi): print(-1)\n"
+            "else:\n"
+            "    while lo < hi:\n"
+            "        mid = (lo + hi) // 2\n"
+            "        if ok(mid): lo = mid + 1\n"
+            "        else: hi = mid\n"
+            "    print(lo)\n" % (H.VERIF, impl, kind, kind))
+        out = subprocess.run([H.PLAIN_PY, "-c", code], capture_output=True, text=True, timeout=600, cwd="/")
+        try:
+            L = int(out.stdout.strip().splitlines()[-1])
+        except Exception:
+            rep.unknown("%s: could not measure the interpreter's nesting limit: %s" % (tag, (out.stdout + out.stderr)[-300:]))
+            continue
+        f = mod(FIELDS)
+        pmax = f.bls12_381_FQ.field_modulus ** 12
+        rep.note("%s: measured first failing exponent bit length on this CPython: %s; p^12 has %d bits" % (tag, L, pmax.bit_length()))
+        if L < 0:
+            rep.ok("%s: no RecursionError up to 6000-bit exponents (> p^12)" % tag)
+            continue
+        with core.Ctx() as ctx:
+            n = SymZ.var("n", 0, pmax)
+            r, m = ctx.satisfiable([n.t >= (1 << L)])
+        if r == "sat":
+            wit = m.eval(n.t, model_completion=True).as_long()
+            rep.fail("%s.__pow__ nests one ** dispatch per exponent bit and the interpreter fails (RecursionError) from %d-bit exponents on; "
+                     "exponents up to p^12 (%d bits) are required" % (tag, L, pmax.bit_length()),
+                     dict(rp, args=dict(rp["args"], extra_n=[str(wit), str((1 << L) + 1)], finding="pow-recursion-depth")))
+        else:
+            rep.ok("%s: nesting limit %d bits covers every exponent up to p^12" % (tag, L))
+
+
+# ---------------------------------------------------------------------------
+# C08.b  inversion on integers
+
+PRIMES = [2, 3, 5, 7, 11, 13, 17, 19, 23, 29, 31, 37, 41, 43, 47, 53, 59, 61, 67, 71, 73, 79, 83, 89, 97, 101, 103, 107, 109, 113, 127]
+
+
+def _check_inv_small(rep, fn, tag, primes, width, rp, reduce_first):
+    def run(ctx):
+        n = SymZ.var("n", min(primes), max(primes))
+        ctx.assume(z3.Or(*[n.t == q for q in primes]))
+        a = SymZ.var("a", -2 * max(primes), 2 * max(primes))
+        ctx.assume(z3.And(a.t >= -2 * n.t, a.t <= 2 * n.t))
+        if not reduce_first:
+            ctx.assume(z3.And(a.t >= 0, a.t < n.t))
+        return a, n, fn(a, n)
+
+    def on_path(pth):
+        rep.paths += 1
+        if pth.kind == "limit" or pth.kind == "unsupported":
+            rep.unknown("%s: %s on path %s" % (tag, pth.value, pth.decisions))
+            return
+        if pth.kind != "ret":
+            r, m = pth.ctx.satisfiable()
+            rep.fail("%s raised %r" % (tag, pth.value), dict(rp, args=dict(rp["args"], model=_model_an(m))))
+            return
+        a, n, v = pth.value
+        v = SymZ.lift(v)
+        W = width
+        am = z3.SRem(a.t, n.t)
+        am = z3.If(am < 0, am + n.t, am)
+        goal = z3.And(v.t >= 0, v.t < n.t,
+                      z3.If(am == 0, v.t == 0, z3.URem(am * v.t, n.t) == 1))
+        r, m = pth.ctx.prove(goal, timeout_ms=120000)
+        require(rep, r, "%s: 0 <= v < n, a*v == 1 (mod n), inv0(0) = 0" % tag, pth.decisions,
+                dict(rp, args=dict(rp["args"], model=_model_an(m))))
+        r, m = pth.ctx.prove_side(timeout_ms=120000)
+        if r != "unsat":
+            rep.unknown("%s: bit-vector width %d may wrap on path %s (%s)" % (tag, width, pth.decisions, r))
+        else:
+            rep.ok("%s: no wrap-around at width %d on this path (bit-vector run = integer run)" % (tag, width), path=pth.decisions, nontrivial=False)
+    core.explore(run, ctx_kwargs=dict(backend=("bv", width), branch_timeout_ms=60000, max_decisions=64), on_path=on_path)
+
+
+def _model_an(m):
+    try:
+        out = {}
+        for d in m.decls():
+            if d.name() in ("a", "n"):
+                v = m[d]
+                out[d.name()] = v.as_signed_long() if z3.is_bv_value(v) else v.as_long()
+        return out
+    except Exception:
+        return {}
+
+
+@obligation("C08", "prime_field_inv_small", bound="a AND n symbolic: n any prime <= 13 (quick) / <= 31 (thorough), |a| <= 2n; real loop, exact bit-vector arithmetic (width 20/24 with proven no-wrap side conditions), every path to loop exit",
+            timeout=1500)
+def prime_field_inv_small(rep, tier):
+    u = mod("py_ecc.utils")
+    rep.encoded(u.prime_field_inv)
+    primes = [q for q in PRIMES if q <= (13 if tier == "quick" else 31)]
+    _check_inv_small(rep, u.prime_field_inv, "prime_field_inv", primes, 20 if tier == "quick" else 24,
+                     {"kind": "c08_inv", "args": {"which": "prime_field_inv"}}, True)
+
+
+def check_inv_loop_step(rep, fn, tag, modulus, rp):
+    """One inductive step of the extended-Euclid loop at a real (full-width) modulus.
+    Pre-state: arbitrary integers lm, hm, a, k1, k2 with low := lm*a - k1*n, high := hm*a - k2*n
+    (i.e. the invariant lm*a == low, hm*a == high (mod n)) and 1 < low (loop condition), low < high.
+    Post-state after the real loop body: the invariant again (identity over Z, the quotient
+    high // low is an opaque term), 0 <= low' < low (termination), high' = low.
+    Prologue: establishes the invariant.  Exit with low == 1: (lm % n) * a == 1 (mod n)."""
+    try:
+        cut = loopcut.cut(fn, rewriter=lambda m: world._Rewriter().visit(m))
+    except loopcut.LoopCutError as e:
+        rep.unknown("%s: loop cut does not apply: %s" % (tag, e))
+        return
+    n = modulus
+    names = cut["vars"]
+    need = {"lm", "hm", "low", "high"}
+    if not need <= set(names):
+        rep.unknown("%s: loop state variables %s differ from the extended-Euclid shape" % (tag, names))
+        return
+    pa, pn = cut["params"][0], cut["params"][1]
+    R = Ring(None)
+
+    # ---- prologue establishes the invariant (a any integer; exact)
+    def run_init(ctx):
+        a = SymZ.var("a")
+        return a, cut["init"](a, n)
+
+    def on_init(pth):
+        rep.paths += 1
+        if pth.kind != "ret":
+            rep.fail("%s prologue raised %r" % (tag, pth.value), rp)
+            return
+        a, (kind, st) = pth.value
+        if kind == "ret":
+            v, m = pth.ctx.prove(z3.And(SymZ.lift(st).t == 0, a.t % n == 0))
+            require(rep, v, "%s: early return only for a == 0 (mod n), value 0 (inv0)" % tag, pth.decisions, rp)
+            return
+        lm, hm, low, high = (SymZ.lift(st[k]) for k in ("lm", "hm", "low", "high"))
+        a2 = SymZ.lift(st[pa])
+        g = z3.And((lm.t * a2.t - low.t) % n == 0, (hm.t * a2.t - high.t) % n == 0, low.t >= 0, low.t < high.t, high.t == n,
+                   (a2.t - a.t) % n == 0)
+        v, m = pth.ctx.prove(g)
+        require(rep, v, "%s: prologue establishes lm*a == low, hm*a == high (mod n), 0 <= low < high = n" % tag, pth.decisions, rp)
+    core.explore(run_init, on_path=on_init)
+
+    # ---- one arbitrary iteration
+    def run_step(ctx):
+        a, lm, hm, k1, k2 = (SymZ.var(x) for x in ("a", "lm", "hm", "k1", "k2"))
+        low = lm * a - k1 * n
+        high = hm * a - k2 * n
+        ctx.assume(low.t > 1)
+        ctx.assume(low.t < high.t)
+        st = {pa: a, pn: n, "lm": lm, "hm": hm, "low": low, "high": high}
+        for k in names:
+            st.setdefault(k, 0)
+        c = cut["cond"](**st)
+        if not c:
+            raise core.Unsupported("loop condition false although low > 1")
+        kind, st2 = cut["body"](**st)
+        if kind != "state":
+            raise core.Unsupported("loop body returned")
+        return dict(a=a, lm=lm, hm=hm, k1=k1, k2=k2, low=low, high=high), st2
+
+    def on_step(pth):
+        rep.paths += 1
+        if pth.kind != "ret":
+            rep.unknown("%s: loop body not executable symbolically: %r" % (tag, pth.value))
+            return
+        pre, st2 = pth.value
+        lm2, hm2, low2, high2 = (SymZ.lift(st2[k]) for k in ("lm", "hm", "low", "high"))
+        a = pre["a"]
+        r = pre["high"].t / pre["low"].t
+        # invariant: lm'*a - low' = (k2 - r*k1) * n  and  hm'*a - high' = k1 * n   (identities over Z)
+        t1 = lm2.t * a.t - low2.t - (pre["k2"].t - r * pre["k1"].t) * n
+        t2 = hm2.t * a.t - high2.t - pre["k1"].t * n
+        require(rep, R.is_identically_zero(t1), "%s: iteration preserves lm*a == low (mod n)  [identity over Z, quotient opaque]" % tag, pth.decisions, rp)
+        require(rep, R.is_identically_zero(t2), "%s: iteration preserves hm*a == high (mod n)" % tag, pth.decisions, rp)
+        require(rep, R.is_identically_zero(high2.t - pre["low"].t), "%s: new high is the old low" % tag, pth.decisions, rp)
+        # termination: the new low is high mod low
+        require(rep, R.is_identically_zero(low2.t - (pre["high"].t - pre["low"].t * r)),
+                "%s: new low = high - low*(high div low)" % tag, pth.decisions, rp)
+        with core.Ctx() as c2:
+            h, l = z3.Int("H"), z3.Int("L")
+            c2.assume(l > 1)
+            v, m = c2.prove(z3.And(h - l * (h / l) >= 0, h - l * (h / l) < l), timeout_ms=60000)
+        require(rep, v, "%s: 0 <= high - low*(high div low) < low (termination measure decreases)" % tag, pth.decisions, rp)
+        control(rep, R.is_identically_zero(t1 + 1), "%s invariant off by one" % tag)
+    core.explore(run_step, on_path=on_step)
+
+    # ---- exit
+    def run_exit(ctx):
+        a, lm, hm, k1, k2 = (SymZ.var(x) for x in ("a", "lm", "hm", "k1", "k2"))
+        low = lm * a - k1 * n
+        ctx.assume(low.t == 1)
+        st = {pa: a, pn: n, "lm": lm, "hm": hm, "low": low, "high": hm * a - k2 * n}
+        for k in names:
+            st.setdefault(k, 0)
+        c = cut["cond"](**st)
+        if c:
+            raise core.Unsupported("loop continues at low == 1")
+        return a, lm, k1, cut["tail"](**st)
+
+    def on_exit(pth):
+        rep.paths += 1
+        if pth.kind != "ret":
+            rep.unknown("%s: epilogue not executable: %r" % (tag, pth.value))
+            return
+        a, lm, k1, v = pth.value
+        v = SymZ.lift(v)
+        g1, m = pth.ctx.prove(z3.And(v.t >= 0, v.t < n, (v.t - lm.t) % n == 0))
+        require(rep, g1, "%s: exit value is lm mod n in [0, n)" % tag, pth.decisions, rp)
+    core.explore(run_exit, on_path=on_exit)
+    rep.trust("Euclid: for gcd(a, n) = 1 the remainder sequence reaches 1 (not 0); with the invariant lm*a == low (mod n) this gives (lm mod n)*a == 1")
+
+
+@obligation("C08", "prime_field_inv_loop_step", bound="real 254- and 381-bit primes; a any integer; one arbitrary loop iteration from any state satisfying the invariant (unbounded number of iterations by induction)")
+def prime_field_inv_loop_step(rep, tier):
+    u = mod("py_ecc.utils")
+    f = mod(FIELDS)
+    rep.encoded(u.prime_field_inv)
+    for curve in CURVES:
+        p = getattr(f, curve + "_FQ").field_modulus
+        check_inv_loop_step(rep, u.prime_field_inv, "prime_field_inv mod p(%s)" % curve, p, {"kind": "c08_inv", "args": {"which": "prime_field_inv"}})
